@@ -300,3 +300,34 @@ EXTRA = {
     "r-extract-helper": ("core/src/time_scale.rs", "    fn position_ended(&self) -> TimeScalePosition {",
                          "    fn ratio(&self, cycle_time: f32) -> f32 {\n        cycle_time / self.duration\n    }\n\n    fn position_ended(&self) -> TimeScalePosition {"),
 }
+
+# round 5 of the seeded changes: hand-written impls of std traits are inlined, not modelled
+_SUB_OLD = """#[derive(Clone, Debug)]
+pub struct SubTimeline<Value: Clone> {
+    frames: Vec<SplitKeyframe<Value>>,
+    frame_index_map: Vec<usize>,
+    start_frame_override: Option<SplitKeyframe<Value>>,
+}"""
+_SUB_NEW = """#[derive(Debug)]
+pub struct SubTimeline<Value: Clone> {
+    frames: Vec<SplitKeyframe<Value>>,
+    frame_index_map: Vec<usize>,
+    start_frame_override: Option<SplitKeyframe<Value>>,
+}
+
+impl<Value: Clone> Clone for SubTimeline<Value> {
+    fn clone(&self) -> Self {
+        Self { frames: self.frames.clone(), frame_index_map: self.frame_index_map.clone(), start_frame_override: %s }
+    }
+}"""
+MUTANTS += [
+    ("clone-drops-override", "core/src/timeline_helpers.rs", _SUB_OLD, _SUB_NEW % "None", ["C09"], "clone-not-fieldwise"),
+    ("count-rounded-early", "core/src/time_scale.rs", "(self.repeat.as_ordinal() as u64 + 1) as f32",
+     "(self.repeat.as_ordinal() as f32 + 1.0)", ["C03", "C07"], "count-rounded-before-increment"),
+]
+REFACTORS += [
+    ("r-clone-by-hand", "core/src/timeline_helpers.rs", _SUB_OLD, _SUB_NEW % "self.start_frame_override.clone()",
+     ["C09", "C04", "C10", "C17", "C01"]),
+    ("r-count-in-f64", "core/src/time_scale.rs", "(self.repeat.as_ordinal() as u64 + 1) as f32",
+     "(self.repeat.as_ordinal() as f64 + 1.0) as f32", ["C03", "C07", "C02", "C20"]),
+]
